@@ -19,7 +19,7 @@ macro_rules! header_check {
     ($name:ident, $check:path, $parts:path, $maxty:ty, $mk_max:expr, $errmod:path) => {
         #[kani::proof]
         #[kani::unwind(7)]
-        fn $name() {
+        pub fn $name() {
             use $errmod as E;
             let buf: [u8; N] = kani::any();
             let n: usize = kani::any();
